@@ -520,3 +520,69 @@ func ZZ_C20_H6() {
 	got, ok := e.run("F", t).(bool)
 	zz.Assert("k-minus-signs-negate-k-times", ok && got)
 }
+
+var zzStrs = []string{"", "a", "ab", "b", "B"}
+
+// ZZ_C20_H7: typing of the comparison operators on string operands: '<s>' op '<t>' (and the
+// concatenation '<s>'+'<u>' op '<t>') for s, t, u over a small set of strings (empty, prefix of
+// one another, different case) and op over < <= > >= == != evaluates to Go's byte-wise string
+// comparison; never panics. Binds tighter than == / && as documented: 'a'<'b' == true.
+func ZZ_C20_H7() {
+	s := zzStrs[zz.Choose("left", len(zzStrs))]
+	t := zzStrs[zz.Choose("right", len(zzStrs))]
+	if zz.Choose("symbolicOperands", 2) == 1 {
+		// operands of up to SL symbolic letters each
+		sb := zz.Bytes("leftbytes", zz.Range("leftlen", 0, zz.Param("SL", 2)))
+		tb := zz.Bytes("rightbytes", zz.Range("rightlen", 0, zz.Param("SL", 2)))
+		for _, c := range sb {
+			zz.Assume(c >= 'A' && c <= 'z' && c != '\\')
+		}
+		for _, c := range tb {
+			zz.Assume(c >= 'A' && c <= 'z' && c != '\\')
+		}
+		s, t = string(sb), string(tb)
+	}
+	op := 5 + zz.Choose("operator", 6)
+	spaces := zz.Choose("spaces", 2) == 1
+	sep := ""
+	if spaces {
+		sep = " "
+	}
+	left := "'" + s + "'"
+	lv := s
+	if zz.Choose("concat", 2) == 1 {
+		u := zzStrs[zz.Choose("suffix", len(zzStrs))]
+		left += sep + "+" + sep + "'" + u + "'"
+		lv += u
+	}
+	expr := left + sep + zzOps[op] + sep + "'" + t + "'"
+	var want bool
+	switch op {
+	case 5:
+		want = lv < t
+	case 6:
+		want = lv <= t
+	case 7:
+		want = lv > t
+	case 8:
+		want = lv >= t
+	case 9:
+		want = lv == t
+	default:
+		want = lv != t
+	}
+	if op <= 8 && zz.Choose("thenEquality", 2) == 1 {
+		// relational binds tighter than equality
+		expr += sep + "==" + sep + "true"
+	}
+	e, err := parseExpr(expr)
+	zz.Cover("reached-assert", true)
+	zz.Assert("parses", err == nil)
+	if err != nil {
+		return
+	}
+	got := e.run("", nil)
+	b, ok := got.(bool)
+	zz.Cover("true-result", want)
+	zz.Assert("string-comparison-matches-byte-wise-order", ok && b == want)
+}
